@@ -28,6 +28,9 @@ type sweepBase struct {
 	Exclude []string
 	// KeyLeavesOnly restricts the sweep to leaves inside the subjectPublicKeyInfo
 	KeyLeavesOnly bool
+	// Under, when non-nil, restricts the sweep to leaves and inner nodes inside the subtrees rooted at
+	// these inner-node indices (document order of Inner())
+	Under []int
 }
 
 // homeCover computes the cover for quota K per lint (deterministic).
@@ -115,6 +118,122 @@ func homeCover(K int) []sweepBase {
 	return out
 }
 
+// featureCover: shared helpers (scope predicates, name collectors, ...) read structures that no single
+// lint's home object may contain. For every OBJECT IDENTIFIER value that occurs in the corpus but in none of
+// the given bases, one corpus certificate that has it (greedy: certificates covering most first); the sweep
+// is confined to the enclosing unit - the Extension, the RDN, or the top-level tbsCertificate field.
+func featureCover(home []sweepBase) []sweepBase {
+	homeObjects()
+	covered := map[string]bool{}
+	oidsOf := func(der []byte) map[string]bool {
+		m := map[string]bool{}
+		if root, err := dt.Parse(der); err == nil {
+			for _, l := range root.Leaves() {
+				if l.Class == 0 && l.Tag == 6 {
+					m[string(l.Content)] = true
+				}
+			}
+		}
+		return m
+	}
+	for _, b := range home {
+		if b.Obj.Kind == gen.Cert {
+			for k := range oidsOf(b.Obj.DER) {
+				covered[k] = true
+			}
+		}
+	}
+	co := gen.LoadCorpus()
+	has := make([]map[string]bool, len(co.Certs))
+	for i, o := range co.Certs {
+		has[i] = oidsOf(o.DER)
+	}
+	var out []sweepBase
+	for {
+		best, gain := -1, 0
+		for i := range co.Certs {
+			g := 0
+			for k := range has[i] {
+				if !covered[k] {
+					g++
+				}
+			}
+			if g > gain {
+				best, gain = i, g
+			}
+		}
+		if best < 0 {
+			break
+		}
+		o := co.Certs[best]
+		root, err := dt.Parse(o.DER)
+		if err != nil {
+			for k := range has[best] {
+				covered[k] = true
+			}
+			continue
+		}
+		parent := map[*dt.Node]*dt.Node{}
+		root.Walk(func(x, p *dt.Node, _ int) { parent[x] = p })
+		// units: children of the extension list, RDNs, children of tbsCertificate
+		unit := map[*dt.Node]bool{}
+		if v, err := gen.ViewCertTree(root); err == nil {
+			for _, ch := range v.TBS.Children {
+				unit[ch] = true
+			}
+			if e := v.Extensions(); e != nil {
+				for _, ch := range e.Children {
+					unit[ch] = true
+				}
+			}
+			for _, nm := range []*dt.Node{v.Subject(), v.Issuer()} {
+				for _, ch := range nm.Children {
+					unit[ch] = true
+				}
+			}
+		}
+		innerIdx := map[*dt.Node]int{}
+		for i, n := range root.Inner() {
+			innerIdx[n] = i
+		}
+		underSet := map[int]bool{}
+		for _, l := range root.Leaves() {
+			if l.Class == 0 && l.Tag == 6 && !covered[string(l.Content)] {
+				x := parent[l]
+				for x != nil && !unit[x] && parent[x] != nil {
+					x = parent[x]
+				}
+				if x != nil {
+					if ii, ok := innerIdx[x]; ok && ii > 0 {
+						underSet[ii] = true
+					}
+				}
+			}
+		}
+		for k := range has[best] {
+			covered[k] = true
+		}
+		if len(underSet) == 0 {
+			continue
+		}
+		b := sweepBase{Obj: o}
+		for ii := range underSet {
+			b.Under = append(b.Under, ii)
+		}
+		sort.Ints(b.Under)
+		for _, l := range registryLints(lint.GlobalRegistry()) {
+			if l.Kind == "cert" && homeClass[l.Name][best] >= 1 && l.Name != "e_rsa_fermat_factorization" {
+				b.Lints = append(b.Lints, l.Name)
+			}
+		}
+		sort.Strings(b.Lints)
+		if len(b.Lints) > 0 {
+			out = append(out, b)
+		}
+	}
+	return out
+}
+
 var (
 	coverMu   sync.Mutex
 	coverMemo = map[int][]sweepBase{}
@@ -139,7 +258,9 @@ func homeSweep(rec *stats.Rec, K int, withExp bool, oracle string, judge func(c 
 			lintsCovered[n] = true
 		}
 	}
-	sweepBases(rec, cover, nil, withExp, oracle, judge, onViolation)
+	fc := featureCover(cover)
+	sweepBases(rec, append(append([]sweepBase{}, cover...), fc...), nil, withExp, oracle, judge, onViolation)
+	rec.Note("featuresweep", fmt.Sprintf("%d further certificates carry an object identifier that no home object has; the field around it (extension / RDN / top-level field) is swept with every lint that runs on the certificate", len(fc)))
 	rec.Note("homesweep", fmt.Sprintf("K=%d: %d base objects cover %d lints; every (leaf x type-aware edit) mutant enumerated", K, len(cover), len(lintsCovered)))
 	rec.Exhaustive("home-sweep", true)
 }
@@ -182,9 +303,50 @@ func sweepBases(rec *stats.Rec, cover []sweepBase, extra []sweepVariant, withExp
 		if err != nil {
 			continue
 		}
+		// one mutant: apply edits to a clone, every variant
+		try := func(apply func(m *dt.Node) string, where string) bool {
+			for _, vr := range variants {
+				m := root.Clone()
+				op := apply(m)
+				if vr.Apply != nil {
+					v, err := gen.ViewCertTree(m)
+					if err != nil || !vr.Apply(v) {
+						continue
+					}
+					op += "+" + vr.Name
+				}
+				c := engine.Case{Kind: b.Obj.Kind, DER: m.Encode(), Base: b.Obj.Name, Filters: filters, Ops: []string{fmt.Sprintf("sweep %s(%s)", where, op)}}
+				run := engine.ExecuteReg(c, reg, cfg, withExp)
+				cases++
+				rec.Eval()
+				if run.Parsed {
+					parsed++
+				}
+				if sig, msg := judge(c, run); msg != "" {
+					if rec.Report(oracle, sig, msg, c) {
+						onViolation(fmt.Sprintf("%s sweep %s %s(%s): %s: %s", oracle, b.Obj.Name, where, op, sig, msg))
+						return false
+					}
+				}
+			}
+			return true
+		}
+		var under map[*dt.Node]bool
+		if b.Under != nil {
+			under = map[*dt.Node]bool{}
+			inn := root.Inner()
+			for _, ii := range b.Under {
+				if ii < len(inn) {
+					inn[ii].Walk(func(x, _ *dt.Node, _ int) { under[x] = true })
+				}
+			}
+		}
 		nl := len(root.Leaves())
 		for li := 0; li < nl; li++ {
 			if keyLeaf != nil && !keyLeaf[root.Leaves()[li]] {
+				continue
+			}
+			if under != nil && !under[root.Leaves()[li]] {
 				continue
 			}
 			unit++
@@ -193,30 +355,26 @@ func sweepBases(rec *stats.Rec, cover []sweepBase, extra []sweepVariant, withExp
 			}
 			ne := gen.LeafEditCount(root.Leaves()[li])
 			for e := 0; e < ne; e++ {
-				for _, vr := range variants {
-					m := root.Clone()
-					op := gen.ApplyLeafEdit(m.Leaves()[li], e)
-					if vr.Apply != nil {
-						v, err := gen.ViewCertTree(m)
-						if err != nil || !vr.Apply(v) {
-							continue
-						}
-						op += "+" + vr.Name
-					}
-					c := engine.Case{Kind: b.Obj.Kind, DER: m.Encode(), Base: b.Obj.Name, Filters: filters,
-						Ops: []string{fmt.Sprintf("sweep leaf=%d edit=%d(%s)", li, e, op)}}
-					run := engine.ExecuteReg(c, reg, cfg, withExp)
-					cases++
-					rec.Eval()
-					if run.Parsed {
-						parsed++
-					}
-					if sig, msg := judge(c, run); msg != "" {
-						if rec.Report(oracle, sig, msg, c) {
-							onViolation(fmt.Sprintf("%s sweep %s leaf=%d edit=%d(%s): %s: %s", oracle, b.Obj.Name, li, e, op, sig, msg))
-							return
-						}
-					}
+				li, e := li, e
+				if !try(func(m *dt.Node) string { return gen.ApplyLeafEdit(m.Leaves()[li], e) }, fmt.Sprintf("leaf=%d edit=%d", li, e)) {
+					return
+				}
+			}
+		}
+		// structural edits on every inner node (not the outermost SEQUENCE)
+		ni := len(root.Inner())
+		for ii := 1; ii < ni && keyLeaf == nil; ii++ {
+			if under != nil && !under[root.Inner()[ii]] {
+				continue
+			}
+			unit++
+			if !stats.Mine(unit) {
+				continue
+			}
+			for e := 0; e < gen.NumInnerEdits; e++ {
+				ii, e := ii, e
+				if !try(func(m *dt.Node) string { return gen.ApplyInnerEdit(m.Inner()[ii], e) }, fmt.Sprintf("inner=%d edit=%d", ii, e)) {
+					return
 				}
 			}
 		}
